@@ -3,14 +3,13 @@ the resolved call graph; nothing is executed."""
 from gcv import facts, model, cfg
 from gcv.model import norm
 
-K = [
+K_BASE = [
     "context::Context::do_collection",
     "context::Context::mark_one",
     "context::Context::sweep_one",
     "gc_ptr::GcPtr::drop_in_place",
     "gc_ptr::GcPtr::trace_value",
-    "<<context::Context as core::ops::drop::Drop>::drop::DropAll as core::ops::drop::Drop>::drop",
-]
+]   # + the arena-drop walker (DropAll), resolved by shape per analysed program (Program.arena_drop_walker)
 K_DEALLOC = "gc_ptr::GcPtr::dealloc"
 CTX_DROP = "<context::Context as core::ops::drop::Drop>::drop"
 BUILDER_DROP = "<gc::GcBuilder as core::ops::drop::Drop>::drop"
@@ -117,6 +116,7 @@ def run(chk, tier):
     for cfgname in configs:
         prog = model.Program(fx[cfgname], cfgname)
         prog.edges()
+        K = K_BASE + [prog.arena_drop_walker()]
         for a in K + [K_DEALLOC, CTX_DROP, BUILDER_DROP]:
             chk.anchor(a, a in prog.seed_n, "(config %s)" % cfgname)
         eps = entry_points(prog)
